@@ -103,11 +103,16 @@ def choi_to_kraus(
             if abs(eigval) > tol
         ]
 
-        if is_positive_semidefinite(choi_mat):
+        # A flat list describes X -> K X K^*, which only makes sense if row and column spaces coincide.
+        same_spaces = d_in[0] == d_in[1] and d_out[0] == d_out[1]
+        if same_spaces and is_positive_semidefinite(choi_mat):
             return kraus_0
 
+        # The right operators live on the column spaces, which may differ from the row spaces.
         kraus_1 = [
-            np.sign(eigval) * k_mat for eigval, k_mat in zip(filter(lambda eigval: abs(eigval) > tol, eigvals), kraus_0)
+            np.sign(eigval) * np.sqrt(abs(eigval)) * unvec(evec, shape=(d_out[1], d_in[1]))
+            for eigval, evec in zip(eigvals, v_mat.T)
+            if abs(eigval) > tol
         ]
     else:
         u_mat, singular_values, vh_mat = np.linalg.svd(choi_mat, full_matrices=False)
